@@ -20,6 +20,12 @@ OBLIGATIONS.append(bw(1, 1, 2, 2, ["quick", "thorough"]))
 OBLIGATIONS.append(bw(2, 2, 2, 2, ["thorough"], 1200))
 OBLIGATIONS.append(bw(3, 2, 2, 2, ["thorough"], 1200))
 
+def fcmp(scr, ln, tiers):
+    return dict(name="file_range_equal_scr%d_len%d" % (scr, ln), harness="harness/C08_filecmp.c", sources=["lib/util/src/file_cmp.c"],
+        defines=dict(SCR=scr, LEN=ln), unwind=2 * ln + 4, termination=True, tiers=tiers, timeout=300, fp_map=FP, reach=["equal_multi_chunk", "different"],
+        functions=["check_file_range_equal (lib/util/src/file_cmp.c)"],
+        bound="two ranges of 0..%d bytes at arbitrary offsets of an arbitrary file, scratch buffer %d bytes (=> up to %d chunks)" % (ln, scr, (ln + scr // 2 - 1) // (scr // 2)))
+OBLIGATIONS += [fcmp(4, 5, ["quick", "thorough"]), fcmp(2, 4, ["quick", "thorough"]), fcmp(4, 8, ["thorough"])]
 def frag(where, tiers, bs=4):
     names = {0: "current_frag_block", 1: "in_flight_copy", 2: "on_disk_uncompressed", 3: "on_disk_compressed"}
     return dict(name="fragment_equal_%s_bs%d" % (names[where], bs), harness="harness/C08_frag.c", sources=["lib/util/src/alloc.c"],
@@ -30,6 +36,12 @@ def frag(where, tiers, bs=4):
               "all fragment bytes / disk bytes symbolic" % (bs, names[where]))
 for w in (0, 1, 2, 3):
     OBLIGATIONS.append(frag(w, ["quick", "thorough"]))
+for w in (2, 3):
+    o = frag(w, ["quick", "thorough"])
+    o["name"] += "_after_other_lookup"
+    o["defines"] = dict(o["defines"], TWOSTEP=1)
+    o["bound"] += "; preceded by one lookup that re-read a different on-disk fragment block (any index, incl. 0) into the cache"
+    OBLIGATIONS.append(o)
 for w in (0, 1, 2, 3):
     OBLIGATIONS.append(frag(w, ["thorough"], 8))
 
